@@ -10,6 +10,7 @@ from .core import AnalysisError
 from .srcmodel import strip_doc, is_flag_test
 
 MAX_PATHS = 20000
+ENUM_MEMBERS = {}
 
 
 # ---------------------------------------------------------------------------------------------
@@ -176,6 +177,10 @@ class Path:
         for k, (kind, val) in self.enums.items():
             if kind == "eq":
                 v[f"{k} == {val}"] = True
+                cls = val.split(".")[0]
+                for m in ENUM_MEMBERS.get(cls, ()):
+                    if f"{cls}.{m}" != val:
+                        v[f"{k} == {cls}.{m}"] = False
             else:
                 for x in val:
                     v[f"{k} == {x}"] = False
@@ -212,6 +217,7 @@ class Emitter:
         for cname, ci in model.classes.items():
             if any(b in ("enum.Enum", "Enum") or b.endswith("Enum") for b in ci.bases):
                 self.enum_classes[cname] = [n for n, _ in model.enum_members(cname)]
+                ENUM_MEMBERS[cname] = self.enum_classes[cname]
         # unique method owners for value inlining of non-self calls
         self._owners = {}
         for cname, ci in model.classes.items():
@@ -933,6 +939,10 @@ class Emitter:
             for k, v in bp.enums.items():
                 if entry_enums.get(k) != v and v[0] == "eq":
                     delta[f"{k} == {v[1]}"] = True
+                    cls = v[1].split(".")[0]
+                    for m in ENUM_MEMBERS.get(cls, ()):
+                        if f"{cls}.{m}" != v[1]:
+                            delta[f"{k} == {cls}.{m}"] = False
                 elif entry_enums.get(k) != v:
                     for x in v[1]:
                         delta[f"{k} == {x}"] = False
